@@ -516,7 +516,7 @@
       <xsl:text>&#10;</xsl:text>
     </xsl:if>
 
-    <xsl:apply-templates select="a:heading//a:authorialNote | a:subheading//a:authorialNote" mode="content">
+    <xsl:apply-templates select="a:heading//a:authorialNote | a:subheading//a:authorialNote | a:from//a:authorialNote" mode="content">
       <xsl:with-param name="indent" select="$indent + 1" />
     </xsl:apply-templates>
 
